@@ -312,6 +312,33 @@ func (w *World) LookupType(s string, defaultPkg string) (types.Type, error) {
 		}
 		return types.NewPointer(t), nil
 	}
+	if strings.HasPrefix(s, "map[") {
+		depth, end := 0, -1
+		for i := 3; i < len(s); i++ {
+			if s[i] == '[' {
+				depth++
+			}
+			if s[i] == ']' {
+				depth--
+				if depth == 0 {
+					end = i
+					break
+				}
+			}
+		}
+		if end < 0 {
+			return nil, fmt.Errorf("bad map type %q", s)
+		}
+		kt, err := w.LookupType(s[4:end], defaultPkg)
+		if err != nil {
+			return nil, err
+		}
+		vt, err := w.LookupType(s[end+1:], defaultPkg)
+		if err != nil {
+			return nil, err
+		}
+		return types.NewMap(kt, vt), nil
+	}
 	if strings.HasPrefix(s, "[]") {
 		t, err := w.LookupType(s[2:], defaultPkg)
 		if err != nil {
